@@ -279,6 +279,34 @@ def case_posterior(B, cfg):
         fixed = {nm: B.var('fixed_value')}
         B.assume(fixed[nm] > 0)
         ctrl.fix_parameters(fixed)
+    if cfg.get('fix_seq'):
+        # a history of fix / re-fix / release calls on the controller: only
+        # the resulting set of name-value pairs counts (C08)
+        names = ctrl.get_parameter_names()
+        for q, call in enumerate(cfg['fix_seq']):
+            d = {}
+            for j, what in call:
+                nm = names[j % len(names)]
+                if what == 'n':
+                    d[nm] = None
+                    fixed.pop(nm, None)
+                else:
+                    d[nm] = B.var('fixed_%d_%d' % (q, j))
+                    B.assume(d[nm] > 0)
+                    fixed[nm] = d[nm]
+            try:
+                ctrl.fix_parameters(d)
+            except Exception as e:
+                B.fact('no-exception:fix_parameters call %d' % q, False,
+                       repr(e))
+                return
+        free = [nm for nm in names if nm not in fixed]
+        B.fact('names = the free parameters in their original order',
+               ctrl.get_parameter_names() == free,
+               repr(ctrl.get_parameter_names()))
+        B.fact('count = number of free parameters',
+               ctrl.get_n_parameters() == len(free),
+               repr(ctrl.get_n_parameters()))
     if pop is None:
         _individual(B, cfg, ctrl, lls, appearance, fixed)
     else:
@@ -326,13 +354,9 @@ def _individual(B, cfg, ctrl, lls, appearance, fixed):
         if fixed:
             # names differ only by the documented output prefix
             names = ll.get_parameter_names()
-            cn = list(fixed)[0]
-            idx = [j for j, nm in enumerate(names)
-                   if nm == cn or cn.endswith(' ' + nm)]
-            idx = [j for j in idx]
             full = _full_names(ctrl, cfg, B)
-            j = full.index(cn)
-            ll.fix_parameters({names[j]: fixed[cn]})
+            ll.fix_parameters({names[full.index(cn)]: fixed[cn]
+                               for cn in fixed})
         want = chi.LogPosterior(ll, prior)
         _same(B, 'individual %s' % lab, post, want, x)
         B.fact('individual %s: names = controller names' % lab,
@@ -360,11 +384,10 @@ def _hierarchical(B, cfg, ctrl, lls, appearance, pop_ref, T_, fixed):
     pop_ref.set_n_ids(len(lls))
     if fixed:
         names = pop_ref.get_parameter_names()
-        cn = list(fixed)[0]
         full = ctrl_names_unfixed(B, cfg, ctrl, names)
-        j = full.index(cn)
         pop_ref = chi.ReducedPopulationModel(pop_ref)
-        pop_ref.fix_parameters({names[j]: fixed[cn]})
+        pop_ref.fix_parameters({names[full.index(cn)]: fixed[cn]
+                                for cn in fixed})
     n = ctrl.get_n_parameters()
     prior = SymPrior(B, n)
     try:
@@ -525,6 +548,21 @@ def jobs(tier):
             model='sym', n_out=1, ems=['Gaussian'], n_ids=2, ids=['b', 'a'],
             units=comps[0], fix=fix, variant={'order': 'interleaved'}),
             FACADE))
+    # histories of fix / re-fix / release calls on the controller
+    seqs = [[[(0, 'v')], [(3, 'v')]], [[(3, 'v')], [(0, 'v')]],
+            [[(0, 'v'), (3, 'v')], [(0, 'n')]], [[(1, 'v')], [(1, 'v')]],
+            [[(2, 'v')], [(2, 'n')]], [[(0, 'v')], [(2, 'v')], [(0, 'n')]],
+            [[(1, 'v'), (2, 'v')], [(3, 'v'), (1, 'n')]],
+            [[(0, 'v')], [(1, 'v')], [(3, 'v')]]]
+    for k, seq in enumerate(seqs):
+        out.append(('posterior', 'case_posterior', dict(
+            model='sym', n_out=2, ems=['Gaussian', 'ConstantAndMultiplicative'],
+            n_ids=2, ids=['b', 'a'], fix_seq=seq,
+            variant={'order': 'interleaved'} if k % 2 else {}), FACADE))
+        out.append(('posterior', 'case_posterior', dict(
+            model='sym', n_out=1, ems=['Gaussian'], n_ids=2, ids=['b', 'a'],
+            units=comps[k % 3], fix_seq=seq,
+            variant={'order': 'interleaved'} if k % 2 else {}), FACADE))
     for orders in ([[0, 1], [1, 0]], [[1, 0], [0, 1], [1, 0]]):
         for v in ({}, {'order': 'interleaved', 'cov_rows': 'end'}):
             out.append(('repopulate', 'case_repopulate', dict(
@@ -553,7 +591,9 @@ BOUNDS = dict(
           '(with duration, bolus, without time, none) incl. no duration '
           'column; 7 population models (pooled, heterogeneous, non-centred, '
           'multi-dimensional, 1-2 covariates) set before or after the data; '
-          'fixed parameters at 3 positions; two to three population models '
+          'fixed parameters at 3 positions and 8 histories of fix / re-fix / '
+          'release calls (individual and hierarchical); two to three '
+          'population models '
           'in a row on one controller (covariates in another order); '
           'symbolic values, doses, '
           'durations, covariates and parameters',
